@@ -149,7 +149,7 @@ def run_case(case, ctx):
     def new(max_iter=300, quantile=None):
         return layouts.build(QuantileLinearRegression, dict(
             quantile=q if quantile is None else quantile, max_iter=max_iter, positive=positive,
-            fit_intercept=fit_intercept, delta=1e-4 * S, copy_X=copy_X), via,
+            fit_intercept=fit_intercept, delta=1e-4 * S, copy_X=copy_X), via, as_numpy_scalars=(sub // 7) % 3 == 0, decoys=
             dict(quantile=0.5 if q != 0.5 else 0.2, max_iter=3, positive=not positive,
                  fit_intercept=not fit_intercept, delta=0.5))
 
